@@ -1047,8 +1047,8 @@ def wb_insert_token(I, callee, args, st, n, fidx):
 def wb_add_line(I, callee, args, st, n, fidx):
     _, byte, start = args
     main = st.cursors["main"]
-    I.emit(st, "add_line", n, byte=byte, start=start, pos=main.pos)
     st.lines_epoch += 1
+    I.emit(st, "add_line", n, byte=byte, start=start, pos=main.pos, epoch_after=st.lines_epoch)
     return val(Term("line_idx", (Const("int", st.lines_epoch),), "LineIdx"), st)
 
 
